@@ -218,12 +218,19 @@ func (s *fontSpec) expandEncoding(names []string) []int {
 	if m > 256 {
 		m = 256
 	}
+	mode := s.EncMode
+	if m == 256 && (mode == encShuffled || mode == encRuns) {
+		// 256 encoded glyphs need format 1 (format 0 counts codes in one
+		// byte) and format 1 holds at most 255 ranges: a permutation of all
+		// 256 codes is not representable in CFF at all.
+		mode = encSorted
+	}
 	enc := make([]int, 256)
 	codes := make([]int, 256)
 	for i := range codes {
 		codes[i] = i
 	}
-	switch s.EncMode {
+	switch mode {
 	case encBlock:
 		start := r.intn(256 - m + 1)
 		// codes start..start+m-1 first, the others after them
@@ -237,7 +244,7 @@ func (s *fontSpec) expandEncoding(names []string) []int {
 			j := r.intn(i + 1)
 			codes[i], codes[j] = codes[j], codes[i]
 		}
-		switch s.EncMode {
+		switch mode {
 		case encSorted:
 			sort.Ints(codes[:m])
 		case encRuns:
